@@ -9,21 +9,23 @@ import (
 )
 
 type SVal struct {
-	t   Term
-	gt  types.Type // Go type if known
-	loc *PtrVal    // unloaded location (struct-valued heap location or any lvalue)
-	nil bool       // the literal nil
+	t     Term
+	gt    types.Type // Go type if known
+	loc   *PtrVal    // unloaded location (struct-valued heap location or any lvalue)
+	nil   bool       // the literal nil
+	macro SExpr      // lazily evaluated let
 }
 
 type Env struct {
-	s     *State
-	vars  map[string]SVal
-	heap  map[string]Term
-	ghost map[string]Term
-	alloc Term
-	old   *Env
-	pkg   *types.Package
-	depth int
+	noLabels bool // label-dependent builtins are not available (contract applied at a call site)
+	s        *State
+	vars     map[string]SVal
+	heap     map[string]Term
+	ghost    map[string]Term
+	alloc    Term
+	old      *Env
+	pkg      *types.Package
+	depth    int
 }
 
 type specErr struct{ msg string }
@@ -112,8 +114,12 @@ func (w *World) resolveType(pkg *types.Package, text string) (types.Type, string
 			case ']':
 				depth--
 				if depth == 0 {
-					_, ks := w.resolveType(pkg, text[5:i])
-					_, vs := w.resolveType(pkg, text[i+1:])
+					kt, ks := w.resolveType(pkg, text[5:i])
+					vt, vs := w.resolveType(pkg, text[i+1:])
+					if kt != nil && vt != nil {
+						// typed mathematical map: the Go map type only records the element types
+						return types.NewMap(kt, vt), arraySort(ks, vs)
+					}
 					return nil, arraySort(ks, vs)
 				}
 			}
@@ -260,11 +266,21 @@ func (e *Env) eval(x SExpr) SVal {
 
 func (e *Env) ident(name string) SVal {
 	if v, ok := e.vars[name]; ok {
+		if v.macro != nil {
+			r := e.eval(v.macro)
+			if r.loc != nil {
+				return r
+			}
+			return r
+		}
 		return v
 	}
 	s := e.s
 	if name == "$alloc" {
 		return SVal{t: e.alloc, gt: types.Typ[types.Int]}
+	}
+	if name == "$recovered" && e.noLabels {
+		panic(labelUse{})
 	}
 	if name == "$recovered" {
 		if s.recovered != nil {
@@ -361,11 +377,23 @@ func (e *Env) bin(n *SBin) SVal {
 	intT := types.Typ[types.Int]
 	switch n.Op {
 	case "&&":
-		return SVal{t: mkAnd(e.rv(e.eval(n.X)), e.rv(e.eval(n.Y))), gt: boolT}
+		a := e.rv(e.eval(n.X))
+		if a.S == "false" {
+			return SVal{t: tFalse, gt: boolT}
+		}
+		return SVal{t: mkAnd(a, e.rv(e.eval(n.Y))), gt: boolT}
 	case "||":
-		return SVal{t: mkOr(e.rv(e.eval(n.X)), e.rv(e.eval(n.Y))), gt: boolT}
+		a := e.rv(e.eval(n.X))
+		if a.S == "true" {
+			return SVal{t: tTrue, gt: boolT}
+		}
+		return SVal{t: mkOr(a, e.rv(e.eval(n.Y))), gt: boolT}
 	case "==>":
-		return SVal{t: mkImp(e.rv(e.eval(n.X)), e.rv(e.eval(n.Y))), gt: boolT}
+		a := e.rv(e.eval(n.X))
+		if a.S == "false" {
+			return SVal{t: tTrue, gt: boolT}
+		}
+		return SVal{t: mkImp(a, e.rv(e.eval(n.Y))), gt: boolT}
 	case "<==>":
 		return SVal{t: mkEq(e.rv(e.eval(n.X)), e.rv(e.eval(n.Y))), gt: boolT}
 	case "==", "!=":
@@ -526,12 +554,23 @@ func (e *Env) locVal(p *PtrVal, t types.Type) SVal {
 func (e *Env) index(xv SVal, ix SExpr) SVal {
 	w := e.s.w
 	t := e.rv(xv)
+	if strings.HasPrefix(t.Sort, "(Array ") {
+		r := SVal{t: mkSelect(t, e.rv(e.eval(ix)))}
+		if xv.gt != nil {
+			if mp, ok := xv.gt.Underlying().(*types.Map); ok {
+				r.gt = mp.Elem()
+			}
+		}
+		return r
+	}
 	if xv.gt != nil {
 		switch u := xv.gt.Underlying().(type) {
 		case *types.Map:
-			_, val := w.mapArrays(u)
+			// Go semantics: the zero value when the key is absent (or the map nil)
+			dom, val := w.mapArrays(u)
 			k := e.keyOf(e.eval(ix), u.Key())
-			return SVal{t: mkSelect(mkSelect(heapGet(e.s, e.heap, val, false), t), k), gt: u.Elem()}
+			present := mkAnd(mkNot(mkEq(t, intLit(0))), mkSelect(mkSelect(heapGet(e.s, e.heap, dom, false), t), k))
+			return SVal{t: mkIte(present, mkSelect(mkSelect(heapGet(e.s, e.heap, val, false), t), k), w.zeroOf(u.Elem())), gt: u.Elem()}
 		case *types.Slice:
 			i := e.rv(e.eval(ix))
 			return SVal{t: e.s.sliceElem(e.heap, t, u.Elem(), i), gt: u.Elem()}
@@ -544,10 +583,18 @@ func (e *Env) index(xv SVal, ix SExpr) SVal {
 	return SVal{}
 }
 
+type labelUse struct{}
+
 func (e *Env) call(n *SCall) SVal {
 	w := e.s.w
 	boolT := types.Typ[types.Bool]
 	intT := types.Typ[types.Int]
+	switch n.Fn {
+	case "reached", "ret", "at", "sameSince", "argOf", "recvOf", "recovered":
+		if e.noLabels {
+			panic(labelUse{})
+		}
+	}
 	switch n.Fn {
 	case "old":
 		if e.old == nil {
@@ -648,6 +695,31 @@ func (e *Env) call(n *SCall) SVal {
 		}
 		v := e.rv(e.eval(n.Args[0]))
 		return SVal{t: mkAnd(app("Bool", ">", v, intLit(0)), le(v, e.old.alloc)), gt: boolT}
+	case "mk":
+		// mk(StructType, field values in declaration order)
+		gt, sort := w.resolveType(e.pkg, specText(n.Args[0]))
+		si, ok := w.structDT[sort]
+		if !ok || len(n.Args)-1 != len(si.fields) {
+			e.fail("mk(%s, ...): wrong number of fields", specText(n.Args[0]))
+		}
+		var fs []Term
+		for i, a := range n.Args[1:] {
+			v := e.eval(a)
+			if v.nil {
+				fs = append(fs, w.zeroOfSort(si.fields[i].sort))
+				continue
+			}
+			t := e.rv(v)
+			if t.Sort != si.fields[i].sort {
+				if si.fields[i].sort == sortAny && v.gt != nil {
+					t = w.box(v.gt, t)
+				} else {
+					e.fail("mk(%s): field %s has sort %s, want %s", sort, si.fields[i].name, t.Sort, si.fields[i].sort)
+				}
+			}
+			fs = append(fs, t)
+		}
+		return SVal{t: w.mkStruct(sort, fs), gt: gt}
 	case "box":
 		v := e.eval(n.Args[0])
 		if v.gt == nil {
@@ -695,6 +767,31 @@ func (e *Env) call(n *SCall) SVal {
 			return SVal{nil: true}
 		}
 		return sn.results[idx]
+	case "recvOf", "argOf":
+		// recvOf(label) / argOf(label, i): receiver and arguments of the labelled call
+		id, ok := n.Args[0].(*SIdent)
+		if !ok {
+			e.fail("%s(label ...)", n.Fn)
+		}
+		sn, has := e.s.labels[id.Name]
+		name := "$recv"
+		if n.Fn == "argOf" {
+			idx := 0
+			if len(n.Args) > 1 {
+				if lit, ok := n.Args[1].(*SInt); ok {
+					idx = int(lit.V)
+				}
+			}
+			name = fmt.Sprintf("$arg%d", idx)
+		}
+		if !has || sn.args == nil {
+			return SVal{nil: true}
+		}
+		v, ok := sn.args[name]
+		if !ok {
+			e.fail("%s: the labelled call has no %s", n.Fn, name)
+		}
+		return v
 	case "recovered":
 		return SVal{t: boolLit(e.s.recovered != nil), gt: boolT}
 	case "reached":
@@ -749,6 +846,26 @@ func (e *Env) call(n *SCall) SVal {
 				e.s.x.counter++
 				r := fmt.Sprintf("r!s%d", e.s.x.counter)
 				cs = append(cs, Term{fmt.Sprintf("(forall ((%s Int)) (=> (and (< 0 %s) (<= %s %s)) (= (select %s %s) (select %s %s))))", r, r, r, sn.alloc.S, cur.S, r, old.S, r), "Bool"})
+			}
+		}
+		return SVal{t: mkAnd(cs...), gt: boolT}
+	case "onlyAt":
+		// onlyAt(x, locs...): the given arrays changed at most at reference x
+		if e.old == nil {
+			e.fail("onlyAt needs a pre-state")
+		}
+		xv := e.rv(e.eval(n.Args[0]))
+		var cs []Term
+		for _, a := range n.Args[1:] {
+			for _, arr := range e.s.x.resolveLocs(e.pkg, []string{specText(a)}) {
+				cur := heapGet(e.s, e.heap, arr, false)
+				old := heapGet(e.s, e.old.heap, arr, false)
+				if cur.S == old.S {
+					continue
+				}
+				e.s.x.counter++
+				r := fmt.Sprintf("r!o%d", e.s.x.counter)
+				cs = append(cs, Term{fmt.Sprintf("(forall ((%s Int)) (=> (not (= %s %s)) (= (select %s %s) (select %s %s))))", r, r, xv.S, cur.S, r, old.S, r), "Bool"})
 			}
 		}
 		return SVal{t: mkAnd(cs...), gt: boolT}
